@@ -125,21 +125,15 @@ def normalize_obligation():
         q = a.data[3:]
         if not all(isinstance(x, Quot) for x in q):
             raise ObFail("normalize() does not divide the quaternion by its norm (components: %r)" % ([type(x).__name__ for x in q],))
-        den = q[0].den
-        if not all(x.den == den for x in q):
-            raise ObFail("normalize() scales the quaternion components by different factors")
         nq = n2(orig[3:])
         natom = poly.atom("norm", nq)
         sigma = None
-        for s in (1, -1):
-            if den == natom.scale(s):
-                sigma = s
+        for s_ in (1, -1):
+            # result_i = q_i / (sigma * |q|)   <=>   num_i * sigma * |q| == q_i * den_i   for every component
+            if all(isinstance(x.num, Poly) and isinstance(x.den, Poly) and x.num * natom.scale(s_) == orig[3 + i] * x.den for i, x in enumerate(q)):
+                sigma = s_
         if sigma is None:
-            raise ObFail("normalize() divides by %s, not by +-|q|" % den.short(80))
-        nums = [x.num for x in q]
-        for s in (1,):
-            if not all(nums[i] == orig[3 + i] for i in range(4)):
-                raise ObFail("normalize() does not keep the direction of the quaternion")
+            raise ObFail("normalize() does not map q to +-q/|q| (first component: (%s)/(%s))" % (q[0].num.short(60), q[0].den.short(60)))
         # sign of the scalar part: sigma * q_w >= 0 must be implied by the path condition
         key, orient = SignFacts.canon(orig[6])
         remaining = it.facts.get(key, {-1, 0, 1})
